@@ -160,6 +160,9 @@ def run(tier, out):
     # component level: the lanes' own sync machinery (Lanes.tla on the real lane objects)
     from checks import k_lanes
     k_lanes.run_k(tier, out, os.path.join(wd, "klanes"), prop="C03")
+    # ... and the write task's per-remote queues, through which every sync answer travels (WriteTask.tla)
+    from checks import k_writetask
+    k_writetask.run_k(tier, out, os.path.join(wd, "kwt"), prop="C03", only=("KindV", "KindM"))
     out.add(traces_validated_against_impl=tot_cases, trace_events_validated=tot_events,
             rule="scripts are behaviours of AgentEnv.tla (TLC simulation, seeded) plus an exhaustive placement of a sync request in fixed update streams; every recorded execution is validated against Trace_ValueView, Trace_MapReplica and Trace_LinkProtocol",
             checker_cmd="tlc -simulate AgentEnv; h_runtime/e2e; tlc Trace_ValueView / Trace_MapReplica / Trace_LinkProtocol")
